@@ -154,6 +154,16 @@ def const_bytes(op):
     return None
 
 
+def arg_strs(body, call):
+    """string constants that flow (directly or through refs/moves) into the arguments of a call"""
+    out = set()
+    for a in call.args:
+        for o in origins(body, a):
+            if o.kind == "const" and isinstance(o.what, str):
+                out.add(o.what)
+    return out
+
+
 def place_str(pl):
     s = "_%d" % pl["l"]
     for p in pl["p"]:
